@@ -50,13 +50,26 @@ def sink(ev, fields):
                        "inferred": bool(fields["inferred"]), "added": bool(fields["added"])})
 
 
+OLD_IDS = {"P": set(), "C": set()}     # addresses of the dense dead population, per role
+
+
 def make_world(model, order=None):
     """Instances are created one by one so that the registration event of each can be named."""
     inst = {}
+    junk = []
 
     def mk(name, fn):
         before = len(IDX)
         o = fn()
+        role = "P" if isinstance(o, Person) else "C" if isinstance(o, Company) else None
+        if role and OLD_IDS[role]:
+            # encourage address reuse in the same role: keep creating until the allocator hands out an address at which an
+            # instance of the dense dead population lived (the rejected ones stay alive until the world is complete)
+            for _ in range(400):
+                if id(o) in OLD_IDS[role]:
+                    break
+                junk.append(o)
+                o = fn()
         ADDR[id(o)] = name
         for k, v in list(IDX.items()):
             if v is None:
@@ -191,6 +204,16 @@ def run_prefix(prefix):
             xs = [FPerson(name=f"old{i}") for i in range(3)]
             xs[0].ancestor_of.append(xs[1]); xs[1].ancestor_of.append(xs[2]); xs[0].knows.append(xs[2])
             del xs
+        elif k == "dense":
+            # a large population in which every person was a member of every company: whatever address a new person and a new
+            # company are given, a dead related pair may have lived there
+            ps = [Person(name=f"old_p{i}") for i in range(step.get("n", 40))]
+            cs = [Company(name=f"old_c{i}") for i in range(step.get("n", 40))]
+            for p in ps:
+                p.member_of = list(cs)
+            OLD_IDS["P"] = {id(p) for p in ps}
+            OLD_IDS["C"] = {id(c) for c in cs}
+            del ps, cs, p
         elif k == "world":
             old_world(step)
         elif k == "collect":
@@ -266,11 +289,13 @@ def handle(case):
     model = case["model"]
     res = {"steps": [], "how": []}
     vh.install(sink)
+    OLD_IDS["P"], OLD_IDS["C"] = set(), set()
     FALSY[0] = bool(case.get("falsy"))
     try:
         run_prefix(case.get("prefix"))
         EVENTS = []
         inst = make_world(model, case.get("world_order"))
+        res["world_at_dead_addresses"] = sum(1 for o in inst.values() if id(o) in OLD_IDS["P"] or id(o) in OLD_IDS["C"])
         for k, st in enumerate(case["h"]):
             if st["f"][0] == "die":
                 # part of the population dies: the references are dropped, the objects reclaimed, the registry swept
